@@ -1134,6 +1134,22 @@ pub fn gen_sched(seed: u64, id: usize, max_actions: usize) -> CaseOut {
             }
         }
     }
+    // sometimes: one replica has a fresh task with several large properties pending (its push takes
+    // several versions, and the later ones only make sense after the first), so that a rejected
+    // first batch is interesting
+    if rng.chance(25) && !g.big_values.is_empty() {
+        let i = rng.below(n);
+        let cur = r.w.tasks(i);
+        if let Some(u) = (0..NUUID).find(|u| !cur.contains_key(u)) {
+            let mut ops = vec![SOp::Create(u)];
+            for p in 0..rng.range(2, 3) {
+                let v = g.big_values[rng.below(g.big_values.len())];
+                ops.push(SOp::Update(u, p, Some(v), 1_000_000_000 * (1 + rng.below(3) as i64)));
+            }
+            ops.push(SOp::Update(u, rng.below(3), Some(g.small_values[rng.below(3)]), 4_000_000_000));
+            r.perform(&Action::Commit(i, ops));
+        }
+    }
     // racing syncs: start all, then schedule steps at random, biased to let a replica pull
     // everything and then run another replica's push before its own
     let racers: Vec<usize> = (0..n).filter(|_| rng.chance(85)).collect();
